@@ -57,32 +57,32 @@ Definition gen_hier : bool := is_subclass 8 Gen.PortPool.class_bases "NoAvailabl
 Lemma C11_hierarchy_obligation : gen_hier = true.
 Proof. vm_compute. reflexivity. Qed.
 
-Definition gen_pcfg (ports : list Z) : pconfig :=
+Definition gen_pcfg (ports : list Z) (v6 : bool) : pconfig :=
   {| pc_ports := ports; pc_hier := gen_hier;
      pc_fin := d_finally Gen.Dispatch.dispatcher; pc_loop_open := true;
-     pc_giveback := Gen.PortPool.sps_giveback; pc_recheck := Gen.PortPool.sps_recheck |}.
+     pc_giveback := Gen.PortPool.sps_giveback; pc_recheck := Gen.PortPool.sps_recheck; pc_ipv6 := v6 |}.
 
-Lemma gen_pcfg_ok : forall ports, pcfg_ok (gen_pcfg ports).
-Proof. intros ports. constructor; [exact C11_finally_obligation|reflexivity]. Qed.
+Lemma gen_pcfg_ok : forall ports v6, pcfg_ok (gen_pcfg ports v6).
+Proof. intros ports v6. constructor; [exact C11_finally_obligation|reflexivity]. Qed.
 
-Definition reachp (ports : list Z) (evs : list pevent) : pstate :=
-  prun (gen_pcfg ports) (pinit (gen_pcfg ports)) evs.
+Definition reachp (ports : list Z) (v6 : bool) (evs : list pevent) : pstate :=
+  prun (gen_pcfg ports v6) (pinit (gen_pcfg ports v6)) evs.
 
 (* ---- for ALL pools, sessions, fault choices, cancellations and interleavings *)
 
 (* every configured port is (with multiplicity) in exactly one place: the pool, a live session
    (its listener or a start-up in flight), or the ledger of lost ports *)
-Theorem C11_accounting : forall ports evs p,
-  total p (reachp ports evs) = occ p ports.
-Proof. intros ports evs p. exact (accounting (gen_pcfg ports) evs p (gen_pcfg_ok ports)). Qed.
+Theorem C11_accounting : forall ports v6 evs p,
+  total p (reachp ports v6 evs) = occ p ports.
+Proof. intros ports v6 evs p. exact (accounting (gen_pcfg ports v6) evs p (gen_pcfg_ok ports v6)). Qed.
 Print Assumptions C11_accounting.
 
 (* hence a port is never duplicated, whatever happens *)
-Theorem C11_never_duplicated : forall ports evs p,
-  occ p (ports_of (pp_pool (reachp ports evs))) + held p (reachp ports evs) <= occ p ports.
+Theorem C11_never_duplicated : forall ports v6 evs p,
+  occ p (ports_of (pp_pool (reachp ports v6 evs))) + held p (reachp ports v6 evs) <= occ p ports.
 Proof.
-  intros ports evs p. pose proof (C11_accounting ports evs p) as H. unfold total in H.
-  pose proof (occ_nonneg p (pp_lost (reachp ports evs))). unfold held. lia.
+  intros ports v6 evs p. pose proof (C11_accounting ports v6 evs p) as H. unfold total in H.
+  pose proof (occ_nonneg p (pp_lost (reachp ports v6 evs))). unfold held. lia.
 Qed.
 Print Assumptions C11_never_duplicated.
 
@@ -90,35 +90,35 @@ Print Assumptions C11_never_duplicated.
    its listeners is being opened and never issue PASV/EPSV while one is being opened:
    pool (+) ports held by live sessions = configured, nothing lost, no orphan listener;
    busy ports (EADDRINUSE) and other OSErrors included, any number of sessions, any pool *)
-Theorem C11_pool_conserved_partial : forall ports evs,
-  quiet_run (gen_pcfg ports) (pinit (gen_pcfg ports)) evs = true ->
-  let st := reachp ports evs in
+Theorem C11_pool_conserved_partial : forall ports v6 evs,
+  quiet_run (gen_pcfg ports v6) (pinit (gen_pcfg ports v6)) evs = true ->
+  let st := reachp ports v6 evs in
   (forall p, occ p (ports_of (pp_pool st)) + held p st = occ p ports)
   /\ pp_lost st = [] /\ pp_orphans st = [].
 Proof.
-  intros ports evs. exact (pool_conserved_partial (gen_pcfg ports) evs (gen_pcfg_ok ports) C11_hierarchy_obligation).
+  intros ports v6 evs. exact (pool_conserved_partial (gen_pcfg ports v6) evs (gen_pcfg_ok ports v6) C11_hierarchy_obligation).
 Qed.
 Print Assumptions C11_pool_conserved_partial.
 
-Theorem C11_quiescent_pool_partial : forall ports evs,
-  quiet_run (gen_pcfg ports) (pinit (gen_pcfg ports)) evs = true ->
-  let st := reachp ports evs in
+Theorem C11_quiescent_pool_partial : forall ports v6 evs,
+  quiet_run (gen_pcfg ports v6) (pinit (gen_pcfg ports v6)) evs = true ->
+  let st := reachp ports v6 evs in
   Forall (fun s => p_live s = false) (pp_sess st) ->
   forall p, occ p (ports_of (pp_pool st)) = occ p ports.
 Proof.
-  intros ports evs. exact (quiescent_pool (gen_pcfg ports) evs (gen_pcfg_ok ports) C11_hierarchy_obligation).
+  intros ports v6 evs. exact (quiescent_pool (gen_pcfg ports v6) evs (gen_pcfg_ok ports v6) C11_hierarchy_obligation).
 Qed.
 Print Assumptions C11_quiescent_pool_partial.
 
 (* the retry loop: a start-up has only tried distinct configured ports (<= |configured|), each busy
    port makes it view one more, and once all ports of the pool are viewed the next attempt exits
    with NoAvailablePort: at most |configured| + 1 attempts per PASV, for every history *)
-Theorem C11_viewed_terminates : forall ports evs s su,
-  In s (pp_sess (reachp ports evs)) -> In su (p_inflight s) ->
+Theorem C11_viewed_terminates : forall ports v6 evs s su,
+  In s (pp_sess (reachp ports v6 evs)) -> In su (p_inflight s) ->
   NoDup (su_viewed su)
   /\ (forall q, In q (su_viewed su) -> In q ports)
   /\ (List.length (su_viewed su) <= List.length ports)%nat.
-Proof. intros ports evs s su. exact (viewed_bounded (gen_pcfg ports) evs s su (gen_pcfg_ok ports)). Qed.
+Proof. intros ports v6 evs s su. exact (viewed_bounded (gen_pcfg ports v6) evs s su (gen_pcfg_ok ports v6)). Qed.
 Print Assumptions C11_viewed_terminates.
 
 Theorem C11_retry_progress : forall hier pool su pool2 su',
@@ -132,10 +132,10 @@ Theorem C11_all_viewed_exits : forall hier pool viewed,
 Proof. exact loop_head_all_viewed_exits. Qed.
 
 (* exhaustion => 421 (and `return False`: the session ends) *)
-Theorem C11_exhaustion_421 : forall ports st i s,
+Theorem C11_exhaustion_421 : forall ports v6 st i lg s,
   plive st i = Some s -> p_passive s = None -> pp_pool st = [] ->
-  snd (pstep (gen_pcfg ports) st (Pasv i)) = [(i, 421)].
-Proof. intros ports. exact (exhaustion_421 (gen_pcfg ports)). Qed.
+  snd (pstep (gen_pcfg ports v6) st (Pasv i lg)) = [(i, 421)].
+Proof. intros ports v6. exact (exhaustion_421 (gen_pcfg ports v6)). Qed.
 Print Assumptions C11_exhaustion_421.
 
 (* ---- the class hierarchy is load-bearing: were NoAvailablePort not an OSError, the "all ports
@@ -144,52 +144,52 @@ Theorem C11_hierarchy_needed :
   exists evs,
     let cfg := {| pc_ports := [30001]; pc_hier := false;
                   pc_fin := d_finally Gen.Dispatch.dispatcher; pc_loop_open := true;
-                  pc_giveback := Gen.PortPool.sps_giveback; pc_recheck := Gen.PortPool.sps_recheck |} in
+                  pc_giveback := Gen.PortPool.sps_giveback; pc_recheck := Gen.PortPool.sps_recheck; pc_ipv6 := false |} in
     quiet_run cfg (pinit cfg) evs = true
     /\ pp_lost (prun cfg (pinit cfg) evs) = [30001]
     /\ pp_pool (prun cfg (pinit cfg) evs) = [].
-Proof. exists [PConnect; Pasv 0; Resume 0 0 AddrInUse]. vm_compute. auto. Qed.
+Proof. exists [PConnect; Pasv 0 false; Resume 0 0 AddrInUse]. vm_compute. auto. Qed.
 
 (* ---- REFUTED on the current source (F5): the session ends while its listener is being opened.
    Suspension point 1 (before the bind): the port never comes back. *)
 Theorem C11_pool_conserved_refuted_cancel1 :
   exists evs,
-    let st := reachp [30001; 30002] evs in
+    let st := reachp [30001; 30002] false evs in
     Forall (fun s => p_live s = false) (pp_sess st)
     /\ ports_of (pp_pool st) = [30002] /\ pp_lost st = [30001] /\ pp_orphans st = [].
-Proof. exists [PConnect; Pasv 0; End_ 0]. vm_compute. repeat split; repeat constructor. Qed.
+Proof. exists [PConnect; Pasv 0 false; End_ 0]. vm_compute. repeat split; repeat constructor. Qed.
 
 (* Suspension point 2 (after the bind): additionally the listener stays bound, owned by nobody. *)
 Theorem C11_pool_conserved_refuted_cancel2 :
   exists evs,
-    let st := reachp [30001; 30002] evs in
+    let st := reachp [30001; 30002] false evs in
     Forall (fun s => p_live s = false) (pp_sess st)
     /\ ports_of (pp_pool st) = [30002] /\ pp_lost st = [30001] /\ pp_orphans st = [30001].
-Proof. exists [PConnect; Pasv 0; Resume 0 0 BindOk; End_ 0]. vm_compute. repeat split; repeat constructor. Qed.
+Proof. exists [PConnect; Pasv 0 false; Resume 0 0 BindOk; End_ 0]. vm_compute. repeat split; repeat constructor. Qed.
 
 (* REFUTED (new): PASV twice while the first listener is still being opened: two ports are taken,
    the second completion overwrites the first listener; after QUIT one port and one bound
    listener are gone for good.  No cancellation, no fault. *)
 Theorem C11_pool_conserved_refuted_overlap :
   exists evs,
-    let st := reachp [30001; 30002; 30003] evs in
+    let st := reachp [30001; 30002; 30003] false evs in
     Forall (fun s => p_live s = false) (pp_sess st)
     /\ ports_of (pp_pool st) = [30002; 30003] /\ pp_lost st = [30001] /\ pp_orphans st = [30001].
 Proof.
-  exists [PConnect; Pasv 0; Pasv 0; Resume 0 0 BindOk; Resume 0 1 BindOk; Resume 0 0 BindOk; Resume 0 0 BindOk; End_ 0].
+  exists [PConnect; Pasv 0 false; Pasv 0 false; Resume 0 0 BindOk; Resume 0 1 BindOk; Resume 0 0 BindOk; Resume 0 0 BindOk; End_ 0].
   vm_compute. repeat split; repeat constructor.
 Qed.
 
 (* ---- the REPAIRED shape (candidate fix docs/fixes/C11-port-giveback+overlap.diff): the full statement,
    for every pool, any number of sessions, every bind outcome, a session end at ANY moment (inside a
    listener start-up included), overlapping PASV/EPSV included *)
-Definition repaired_pcfg (ports : list Z) : pconfig :=
+Definition repaired_pcfg (ports : list Z) (v6 : bool) : pconfig :=
   {| pc_ports := ports; pc_hier := gen_hier;
      pc_fin := d_finally Gen.Dispatch.dispatcher; pc_loop_open := true;
-     pc_giveback := true; pc_recheck := true |}.
+     pc_giveback := true; pc_recheck := true; pc_ipv6 := v6 |}.
 
-Lemma repaired_pcfg_ok : forall ports, pcfg_ok (repaired_pcfg ports).
-Proof. intros ports. constructor; [exact C11_finally_obligation|reflexivity]. Qed.
+Lemma repaired_pcfg_ok : forall ports v6, pcfg_ok (repaired_pcfg ports v6).
+Proof. intros ports v6. constructor; [exact C11_finally_obligation|reflexivity]. Qed.
 
 (* the repaired shape is one check_ladder accepts (with exactly these flags), so after the fix the same
    obligation C11_ladder_obligation ties the source to repaired_pcfg *)
@@ -199,46 +199,60 @@ Example C11_repaired_shape_accepted :
   /\ check_ladder try_today handlers_today false false Gen.PortPool.passive_except true true = false.
 Proof. vm_compute. auto. Qed.
 
-Theorem C11_pool_conserved_repaired : forall ports evs,
-  let st := prun (repaired_pcfg ports) (pinit (repaired_pcfg ports)) evs in
+Theorem C11_pool_conserved_repaired : forall ports v6 evs,
+  let st := prun (repaired_pcfg ports v6) (pinit (repaired_pcfg ports v6)) evs in
   (forall p, occ p (ports_of (pp_pool st)) + held p st = occ p ports)
   /\ pp_lost st = [] /\ pp_orphans st = [].
 Proof.
-  intros ports evs.
-  exact (pool_conserved_fixed (repaired_pcfg ports) evs (repaired_pcfg_ok ports) C11_hierarchy_obligation eq_refl eq_refl).
+  intros ports v6 evs.
+  exact (pool_conserved_fixed (repaired_pcfg ports v6) evs (repaired_pcfg_ok ports v6) C11_hierarchy_obligation eq_refl eq_refl).
 Qed.
 Print Assumptions C11_pool_conserved_repaired.
 
-Theorem C11_quiescent_pool_repaired : forall ports evs,
-  let st := prun (repaired_pcfg ports) (pinit (repaired_pcfg ports)) evs in
+Theorem C11_quiescent_pool_repaired : forall ports v6 evs,
+  let st := prun (repaired_pcfg ports v6) (pinit (repaired_pcfg ports v6)) evs in
   Forall (fun s => p_live s = false) (pp_sess st) ->
   forall p, occ p (ports_of (pp_pool st)) = occ p ports.
 Proof.
-  intros ports evs.
-  exact (quiescent_pool_fixed (repaired_pcfg ports) evs (repaired_pcfg_ok ports) C11_hierarchy_obligation eq_refl eq_refl).
+  intros ports v6 evs.
+  exact (quiescent_pool_fixed (repaired_pcfg ports v6) evs (repaired_pcfg_ok ports v6) C11_hierarchy_obligation eq_refl eq_refl).
 Qed.
 Print Assumptions C11_quiescent_pool_repaired.
 
 (* the three refuting histories lose nothing on the repaired shape *)
 Example C11_repaired_on_witnesses :
-  let lostof ports evs := (pp_lost (prun (repaired_pcfg ports) (pinit (repaired_pcfg ports)) evs),
-                           pp_orphans (prun (repaired_pcfg ports) (pinit (repaired_pcfg ports)) evs),
-                           ports_of (pp_pool (prun (repaired_pcfg ports) (pinit (repaired_pcfg ports)) evs))) in
-  lostof [30001; 30002] [PConnect; Pasv 0; End_ 0] = ([], [], [30001; 30002])
-  /\ lostof [30001; 30002] [PConnect; Pasv 0; Resume 0 0 BindOk; End_ 0] = ([], [], [30001; 30002])
+  let lostof ports evs := let v6 := false in (pp_lost (prun (repaired_pcfg ports v6) (pinit (repaired_pcfg ports v6)) evs),
+                           pp_orphans (prun (repaired_pcfg ports v6) (pinit (repaired_pcfg ports v6)) evs),
+                           ports_of (pp_pool (prun (repaired_pcfg ports v6) (pinit (repaired_pcfg ports v6)) evs))) in
+  lostof [30001; 30002] [PConnect; Pasv 0 false; End_ 0] = ([], [], [30001; 30002])
+  /\ lostof [30001; 30002] [PConnect; Pasv 0 false; Resume 0 0 BindOk; End_ 0] = ([], [], [30001; 30002])
   /\ lostof [30001; 30002; 30003]
-       [PConnect; Pasv 0; Pasv 0; Resume 0 0 BindOk; Resume 0 1 BindOk; Resume 0 0 BindOk; Resume 0 0 BindOk; End_ 0]
+       [PConnect; Pasv 0 false; Pasv 0 false; Resume 0 0 BindOk; Resume 0 1 BindOk; Resume 0 0 BindOk; Resume 0 0 BindOk; End_ 0]
      = ([], [], [30001; 30002; 30003]).
 Proof. vm_compute. auto. Qed.
+
+(* IPv6 listener (v6 = true; every theorem above quantifies over it): legacy PASV opens and stores the listener and
+   only then finds no AF_INET socket: 503, the session ends, the dispatcher's finally returns the port (quiet
+   history: covered by C11_pool_conserved_partial); EPSV on the same server is served (229) *)
+Example C11_ipv6_legacy_pasv :
+  let cfg := gen_pcfg [30001; 30002] true in
+  let evs := [PConnect; Pasv 0 true; Resume 0 0 BindOk; Resume 0 0 BindOk;
+              PConnect; Pasv 1 false; Resume 1 0 BindOk; Resume 1 0 BindOk; Pasv 1 true] in
+  quiet_run cfg (pinit cfg) evs = true
+  /\ map fst (ptrace cfg (pinit cfg) evs)
+     = [[]; []; []; [(0%nat, 503)]; []; []; []; [(1%nat, 227)]; [(1%nat, 503)]]
+  /\ pp_pool (prun cfg (pinit cfg) evs) = [(0, 30001); (0, 30002)]
+  /\ Forall (fun s => p_live s = false) (pp_sess (prun cfg (pinit cfg) evs)).
+Proof. vm_compute. repeat split; repeat constructor. Qed.
 
 (* non-vacuity: a quiet history with a busy port, a refused session (421), an OSError and an
    orderly end, on which the hypotheses of the partial theorem hold *)
 Example C11_nonvacuous :
-  let evs := [PConnect; Pasv 0; Resume 0 0 AddrInUse; Resume 0 0 BindOk; Resume 0 0 BindOk; Pasv 0;
-              PConnect; Pasv 1; Resume 1 0 AddrInUse; PConnect; Pasv 2; Resume 2 0 OtherOSError;
+  let evs := [PConnect; Pasv 0 false; Resume 0 0 AddrInUse; Resume 0 0 BindOk; Resume 0 0 BindOk; Pasv 0 false;
+              PConnect; Pasv 1 false; Resume 1 0 AddrInUse; PConnect; Pasv 2 false; Resume 2 0 OtherOSError;
               Work 0; End_ 0; CloseAll] in
-  quiet_run (gen_pcfg [30001; 30002]) (pinit (gen_pcfg [30001; 30002])) evs = true
-  /\ map fst (ptrace (gen_pcfg [30001; 30002]) (pinit (gen_pcfg [30001; 30002])) evs)
+  quiet_run (gen_pcfg [30001; 30002] false) (pinit (gen_pcfg [30001; 30002] false)) evs = true
+  /\ map fst (ptrace (gen_pcfg [30001; 30002] false) (pinit (gen_pcfg [30001; 30002] false)) evs)
      = [[]; []; []; []; [(0%nat, 227)]; [(0%nat, 227)]; []; []; [(1%nat, 421)]; []; []; []; []; []; []]
-  /\ pp_pool (reachp [30001; 30002] evs) = [(0, 30002); (4, 30001)].
+  /\ pp_pool (reachp [30001; 30002] false evs) = [(0, 30002); (4, 30001)].
 Proof. vm_compute. auto. Qed.
